@@ -16,6 +16,10 @@ use world::*;
 const NACC: usize = ACCOUNTS.len();
 
 struct StepOut {
+    /// the pick handed to the model: the id the minter reported, or -- when the call failed -- some id that
+    /// was still mintable, so that a call the model would accept is not hidden behind an illegal pick
+    oracle: u64,
+    pre_cw2: (String, String),
     ok: bool,
     err: String,
     pick: u64,
@@ -178,6 +182,13 @@ fn monitor(
             sh.received.clear(); // the documented reset once the sale is sold out
         }
     }
+    // MintCount shows exactly the tokens an address was minted (since the sold-out purge, if any)
+    for a in 0..NACC {
+        let want = *sh.received.get(&a).unwrap_or(&0);
+        if post.counts[a] != want && v.is_empty() {
+            v.push(("C17:mint-count-mismatch".into(), format!("MintCount({}) = {} after {:?}, tokens minted to it = {}", ACCOUNTS[a].0, post.counts[a], st.op, want)));
+        }
+    }
     // DepositedTokens shows exactly the accepted, not yet consumed deposits
     for a in 0..NACC {
         for c in 0..nc {
@@ -277,6 +288,8 @@ fn run_case(case: &Case) -> Result<RunOut, String> {
     let mut dead = false; // after a violation the monitors' own bookkeeping is no longer meaningful
     for (i, st) in case.steps.iter().enumerate() {
         chain::set_time(&mut w.app, st.at);
+        prepare(&mut w, &st.op);
+        pre.cw2 = crate::w_migrate::get_cw2(&w.app, &w.minter);
         let d0 = chain::storage_digest(&w.app, &w.minter);
         let r = apply(&mut w, &st.op);
         let d1 = chain::storage_digest(&w.app, &w.minter);
@@ -295,7 +308,8 @@ fn run_case(case: &Case) -> Result<RunOut, String> {
                 out.violations.push((k, what, i));
             }
         }
-        out.steps.push(StepOut { ok, err, pick, post: post.clone() });
+        let oracle = if ok { pick } else { pre.positions.first().map(|p| p.1 as u64).unwrap_or(0) };
+        out.steps.push(StepOut { oracle, pre_cw2: pre.cw2.clone(), ok, err, pick, post: post.clone() });
         pre = post;
     }
     Ok(out)
@@ -306,10 +320,10 @@ fn case_coq(case: &Case, r: &RunOut) -> String {
         .steps
         .iter()
         .zip(r.steps.iter())
-        .map(|(s, o)| format!("({}, {}, {})", s.at, op_coq(&s.op, o.pick), obs_coq(o.ok, &o.post)))
+        .map(|(s, o)| format!("({}, {}, {})", s.at, op_coq(&s.op, o.oracle, &o.pre_cw2), obs_coq(o.ok, &o.post, cw2_after(&s.op, &o.post).as_ref())))
         .collect::<Vec<_>>()
         .join("; ");
-    format!("C17Case {} {} [{}]", cfg_coq(case), obs_coq(true, &r.init), steps)
+    format!("C17Case {} {} [{}]", cfg_coq(case), obs_coq(true, &r.init, None), steps)
 }
 
 // ------------------------------------------------------------------ generators
@@ -501,6 +515,126 @@ fn corpus() -> Vec<Case> {
     let mut b = B::new("corpus-irregular-empty", &[], 3, 3);
     b.dep(0, 1, Recip::None);
     out.push(b.case);
+    out.extend(migrate_cases());
+    out
+}
+
+/// the minter's cw2 info right after creation (name, version)
+fn current_cw2() -> (String, String) {
+    let b = B::new("cw2-probe", &[1], 1, 1);
+    let w = build(&b.case).expect("probe world");
+    crate::w_migrate::get_cw2(&w.app, &w.minter)
+}
+
+/// stored versions around the code's version (each component +-1), far below, malformed, and a foreign name
+fn cw2_grid() -> Vec<(String, String)> {
+    let (name, ver) = current_cw2();
+    let p: Vec<u64> = ver.split('.').map(|x| x.parse().unwrap_or(0)).collect();
+    let (ma, mi, pa) = (p[0], p[1], p[2]);
+    let mut vs: Vec<String> = vec![
+        ver.clone(),
+        format!("{}.{}.{}", ma, mi, pa + 1),
+        format!("{}.{}.{}", ma, mi + 1, 0),
+        format!("{}.{}.{}", ma + 1, 0, 0),
+        format!("{}.{}.{}", ma, mi.saturating_sub(1), 99),
+        format!("{}.{}.{}", ma.saturating_sub(1), 99, 99),
+        "0.0.1".into(),
+        format!("{}.{}", ma, mi),
+        format!("v{}", ver),
+        "".into(),
+    ];
+    if pa > 0 {
+        vs.push(format!("{}.{}.{}", ma, mi, pa - 1));
+    }
+    // every literal of the minter's migrate function as a version component, +-1
+    for l in harvest_literals(&["contracts/minters/token-merge-minter/src/contract.rs"]) {
+        if l < 40 {
+            vs.push(format!("{}.{}.{}", l, l.saturating_sub(1), l + 1));
+        }
+    }
+    vs.sort();
+    vs.dedup();
+    let mut out: Vec<(String, String)> = vs.into_iter().map(|v| (name.clone(), v)).collect();
+    out.push(("crates.io:vending-minter".into(), ver.clone()));
+    out.push(("crates.io:token-merge-minter".into(), "0.1.0".into()));
+    out
+}
+
+fn mig(who: usize, stored: Option<(String, String)>) -> Op {
+    Op::Migrate { who, stored }
+}
+fn sudo(max_limit: Option<u32>, airdrop_price: Option<u128>, shuffle_fee: Option<u128>) -> Op {
+    Op::SudoParams { max_limit, airdrop_price, shuffle_fee, add_code_id: None, offset: None }
+}
+
+/// migrations and factory governance between partial deposits, after a completed merge,
+/// after an airdrop, before and after the start time; every monitor keeps running
+fn migrate_cases() -> Vec<Case> {
+    let mut out = vec![];
+    let grid = cw2_grid();
+    let (name, ver) = current_cw2();
+    let older = (name.clone(), "0.0.1".to_string());
+    let newer = (name.clone(), "99.0.0".to_string());
+    // (a) the places the lead named, with an older stored version (the migrate does its real work)
+    let mut b = B::new("corpus-migrate-places", &[2, 1], 3, 2);
+    b.case.airdrop_price = 1000;
+    b.at(START - 10_000_000_000);
+    b.push(mig(CREATOR, Some(older.clone()))); // before the start time
+    b.push(mig(5, Some(older.clone()))); // not the wasm admin
+    b.push(mig(CREATOR, Some(newer.clone()))); // refused: stored version is ahead of the code
+    b.dep(0, 1, Recip::None); // still before start
+    b.at(START + 1);
+    b.dep(0, 1, Recip::None);
+    b.push(mig(CREATOR, Some(older.clone()))); // between partial deposits
+    b.dep(0, 1, Recip::None);
+    b.push(mig(CREATOR, None)); // same version: nothing to do
+    b.dep(0, 1, Recip::None); // beyond the requirement: the ledger survived
+    b.dep(1, 1, Recip::None); // completes -> mint
+    b.push(mig(CREATOR, Some(older.clone()))); // after a completed merge
+    b.dep(0, 2, Recip::Addr(1));
+    let p = b.pay();
+    b.push(Op::MintTo { caller: 0, recip: Recip::Addr(1), funds: p.clone() }); // user1 reaches its limit 2
+    b.push(mig(CREATOR, Some(older.clone()))); // after an airdrop
+    b.dep(0, 1, Recip::None); // at limit: refused (the counts survived)
+    b.dep(0, 3, Recip::Addr(1)); // at limit through an explicit recipient
+    b.push(Op::MintFor { caller: 0, tid: 1, recip: Recip::Addr(2), funds: p.clone() });
+    b.push(Op::MintFor { caller: 0, tid: 2, recip: Recip::Addr(2), funds: p.clone() });
+    b.push(Op::MintFor { caller: 0, tid: 3, recip: Recip::Addr(2), funds: p.clone() }); // one of the three fails: already minted
+    b.push(mig(CREATOR, Some(older.clone()))); // sold out
+    b.push(Op::MintTo { caller: 0, recip: Recip::Addr(3), funds: p.clone() }); // nothing left (the count survived)
+    b.dep(1, 3, Recip::None);
+    out.push(b.case);
+    // (b) the version grid: each stored pair once, by the admin, between two partial deposits of a 3-token requirement
+    for chunk in grid.chunks(6) {
+        let mut b = B::new(&format!("probe-migrate-grid-{}", chunk[0].1), &[3], 3, 3);
+        for c in chunk {
+            b.dep(0, 1, Recip::None);
+            b.push(mig(CREATOR, Some(c.clone())));
+            b.push(mig(2, Some(c.clone())));
+        }
+        out.push(b.case);
+    }
+    // (c) governance: factory UpdateParams between deposits; an existing minter keeps its own limit
+    let mut b = B::new("corpus-sudo", &[1], 5, 3);
+    b.case.airdrop_price = 1000;
+    let p = b.pay();
+    b.dep(0, 1, Recip::None);
+    b.dep(0, 1, Recip::None); // count 2, limit 3
+    b.push(sudo(Some(1), None, None)); // factory max_per_address_limit 50 -> 1
+    b.dep(0, 1, Recip::None); // still accepted: own limit 3 is what counts
+    b.dep(0, 1, Recip::None); // at own limit
+    b.push(Op::UpdLimit { caller: 0, l: 2, funds: vec![] }); // above the new factory maximum
+    b.push(Op::UpdLimit { caller: 0, l: 1, funds: vec![] });
+    b.push(sudo(Some(50), Some(700), Some(0)));
+    b.push(Op::MintTo { caller: 0, recip: Recip::Addr(2), funds: p.clone() }); // old price
+    b.push(Op::MintTo { caller: 0, recip: Recip::Addr(2), funds: vec![(0, 700)] });
+    b.push(Op::Shuffle { caller: 2, funds: vec![] });
+    b.push(Op::SudoParams { max_limit: None, airdrop_price: None, shuffle_fee: None, add_code_id: Some(77), offset: Some(5) });
+    b.dep(0, 2, Recip::None); // count 1, limit now 1
+    b.push(mig(CREATOR, Some((name.clone(), ver.clone()))));
+    b.push(Op::UpdLimit { caller: 0, l: 3, funds: vec![] });
+    b.dep(0, 2, Recip::None);
+    out.push(b.case);
     out
 }
 
@@ -666,7 +800,7 @@ fn probes(rng: &mut Rng) -> Vec<Case> {
     out
 }
 
-fn random_history(rng: &mut Rng, idx: usize) -> Case {
+fn random_history(rng: &mut Rng, idx: usize, grid: &[(String, String)]) -> Case {
     let n = rng.range(1, 3) as usize;
     let vec: Vec<u32> = (0..n).map(|_| rng.range(1, 3) as u32).collect();
     let nt = *rng.pick(&[1u32, 2, 3, 4, 6, 8]);
@@ -733,9 +867,18 @@ fn random_history(rng: &mut Rng, idx: usize) -> Case {
         } else if k < 97 {
             let t = b.t + rng.range(0, 4) * 1_000_000_000;
             b.push(Op::UpdStart { caller: if rng.chance(5, 6) { 0 } else { 1 }, t, funds: vec![] });
-        } else {
+        } else if k < 98 {
             let fee = b.case.shuffle_fee;
             b.push(Op::Shuffle { caller: rng.range(0, 5) as usize, funds: if rng.chance(3, 4) { vec![(0, fee)] } else { vec![] } });
+        } else if k < 99 {
+            b.push(sudo(if rng.chance(1, 2) { Some(rng.range(1, 4) as u32) } else { None }, if rng.chance(1, 3) { Some(b.case.airdrop_price) } else { None }, None));
+        } else {
+            let stored = if rng.chance(1, 3) { None } else { Some(rng.pick(grid).clone()) };
+            b.push(mig(if rng.chance(3, 4) { CREATOR } else { rng.range(1, 5) as usize }, stored));
+        }
+        if rng.chance(1, 12) {
+            let stored = if rng.chance(1, 3) { None } else { Some(rng.pick(grid).clone()) };
+            b.push(mig(if rng.chance(4, 5) { CREATOR } else { rng.range(1, 5) as usize }, stored));
         }
     }
     b.case
@@ -764,8 +907,9 @@ fn gen_cases(a: &Args) -> Vec<Case> {
     let mut cases = corpus();
     cases.extend(probes(&mut rng));
     let (nr, nm) = if a.thorough() { (2500, 200) } else { (150, 12) };
+    let grid = cw2_grid();
     for i in 0..nr {
-        cases.push(random_history(&mut rng, i));
+        cases.push(random_history(&mut rng, i, &grid));
     }
     for i in 0..nm {
         cases.push(malformed(&mut rng, i));
@@ -919,7 +1063,7 @@ pub fn run(a: &Args) {
         rep.notes.push(format!("{} x {}", n, k));
     }
     rep.notes.push(format!("{} histories", cases.len()));
-    out.write_cases("C17", "From LP Require Import Num Pay Sg1 TokenMerge C17Corr.", "c17_case", "c17_check", &coq_cases, 6, &mut rep);
+    out.write_cases("C17", "From Coq Require Import String. From LP Require Import Num Pay Sg1 TokenMerge TokenMergeMigrate C17Corr.", "c17_case", "c17_check", &coq_cases, 6, &mut rep);
     out.finish(&rep);
     println!("C17 harness: {} histories, {} steps, {} monitor violations", cases.len(), rep.evaluations, nviol);
 }
